@@ -19,6 +19,8 @@ try:
         print(tag, p, "CAUGHT" if r.returncode == 1 else "MISSED", lines[:2])
 finally:
     subprocess.run("git -C /repo checkout -- .", shell=True)
+    # the evidence written while the seed was applied describes a mutated tree: never keep it
+    subprocess.run("git -C /verif checkout -- evidence lean/Chrono/Extracted 2>/dev/null", shell=True)
 out = os.path.join("/verif/seeded", tag)
 os.makedirs(out, exist_ok=True)
 shutil.copy(os.path.join(d, "patch.diff"), out); shutil.copy(os.path.join(d, "seed_demo.rs"), out)
